@@ -174,7 +174,7 @@ impl Arithmetic for Expression {
 
     fn sub(self, other: Expression) -> Result<Expression, Error> {
         match self {
-            Expression::None => Ok(other),
+            Expression::None => other.neg(),
             Expression::Number(x) => Arithmetic::sub(x, other),
             Expression::Assets(x) => Arithmetic::sub(x, other),
             x => Err(Error::InvalidBinaryOp(
